@@ -3,6 +3,7 @@ package sx
 import (
 	"fmt"
 	"go/types"
+	"regexp"
 )
 
 // Regexp stub. The engine cannot execute RE2; it supports exactly the
@@ -135,11 +136,23 @@ func init() {
 		if !ok {
 			i.abort(abortUnsupported, "regexp.MustCompile of non-constant pattern")
 		}
+		rt := i.prog.ImportedPackage("regexp").Type("Regexp").Type()
 		c, err := parseSimpleRegexp(pat)
 		if err != nil {
-			i.abortAt(fr, abortUnsupported, fmt.Sprintf("regexp pattern %q outside the stub's fragment: %v", pat, err))
+			// outside the symbolic fragment: usable on concrete strings only (host regexp)
+			nre, nerr := regexp.Compile(pat)
+			if nerr != nil {
+				panic(targetPanic{iface{i.runtimeErrorString, "regexp: Compile(" + pat + "): " + nerr.Error()}})
+			}
+			var cell value = zero(rt)
+			p := &cell
+			if i.nativeRegexps == nil {
+				i.nativeRegexps = map[*value]*regexp.Regexp{}
+			}
+			i.nativeRegexps[p] = nre
+			i.regexpsSeen[pat+" (concrete inputs only)"]++
+			return p
 		}
-		rt := i.prog.ImportedPackage("regexp").Type("Regexp").Type()
 		var cell value = zero(rt)
 		p := &cell
 		if i.regexps == nil {
@@ -151,6 +164,14 @@ func init() {
 	}
 	externals["(*regexp.Regexp).ReplaceAllString"] = func(fr *frame, a []value) value {
 		i := fr.i
+		if nre := i.nativeRegexps[a[0].(*value)]; nre != nil {
+			src, ok1 := concreteString(a[1])
+			repl, ok2 := concreteString(a[2])
+			if !ok1 || !ok2 {
+				i.abortAt(fr, abortUnsupported, "symbolic input to a regexp outside the stub's fragment: "+nre.String())
+			}
+			return nre.ReplaceAllString(src, repl)
+		}
 		c := i.regexps[a[0].(*value)]
 		if c == nil {
 			i.abort(abortUnsupported, "regexp value not created by MustCompile stub")
@@ -188,6 +209,17 @@ func init() {
 	}
 	externals["(*regexp.Regexp).FindAllString"] = func(fr *frame, a []value) value {
 		i := fr.i
+		if nre := i.nativeRegexps[a[0].(*value)]; nre != nil {
+			src, ok1 := concreteString(a[1])
+			if !ok1 {
+				i.abortAt(fr, abortUnsupported, "symbolic input to a regexp outside the stub's fragment: "+nre.String())
+			}
+			var out []value
+			for _, m := range nre.FindAllString(src, int(asInt64(a[2]))) {
+				out = append(out, m)
+			}
+			return out
+		}
 		c := i.regexps[a[0].(*value)]
 		if c == nil {
 			i.abort(abortUnsupported, "regexp value not created by MustCompile stub")
@@ -244,4 +276,20 @@ func init() {
 		}
 		return i.val(any, types.Bool)
 	}
+}
+
+func concreteString(v value) (string, bool) {
+	if s, ok := v.(string); ok {
+		return s, true
+	}
+	bs := strBytes(v)
+	out := make([]byte, len(bs))
+	for k, b := range bs {
+		c, ok := b.(uint8)
+		if !ok {
+			return "", false
+		}
+		out[k] = c
+	}
+	return string(out), true
 }
